@@ -598,6 +598,101 @@ theorem src_gs_stale_objective_weight :
 
 end Params
 
+/-! ## ThresholdOptimizer with `prefit=True`
+
+History freedom there means: the thresholds depend on the data of the last fit and on the user's fitted estimator AS THE
+USER LEFT IT — `fit` never refits that object.  `clone` drops the fitted state of the nested estimator, after which `fit`
+fails exactly like a fresh ThresholdOptimizer(prefit=True) around an unfitted estimator. -/
+
+section Prefit
+
+def cloneFree (ops : List Op) : Prop := ∀ o ∈ ops, o ≠ Op.clone
+
+theorem to_prefit_inv (h0 : List Data) (hne : h0 ≠ []) :
+    ∀ (ops : List Op) (s : TOPreState), cloneFree ops → s.user = h0 →
+      ((TOPre false h0).runFrom s ops).user = h0 := by
+  intro ops
+  induction ops with
+  | nil => intro s _ hs; exact hs
+  | cons o os ih =>
+    intro s hc hs
+    apply ih
+    · intro o' ho'; exact hc o' (List.mem_cons_of_mem _ ho')
+    · have hn : s.user.isEmpty = false := by rw [hs]; cases h0 <;> simp_all
+      cases o with
+      | fit d => simp only [TOPre, toPreStep, hn, Bool.false_eq_true, if_false]; exact hs
+      | predict k => exact hs
+      | pickle => exact hs
+      | clone => exact absurd rfl (hc .clone (by simp))
+
+/-- the user's estimator is never refitted: after any clone-free history its fit history is what the user left -/
+theorem to_prefit_user_estimator_untouched (h0 : List Data) (hne : h0 ≠ []) (ops : List Op) (hc : cloneFree ops) :
+    ((TOPre false h0).run ops).user = h0 :=
+  to_prefit_inv h0 hne ops _ hc rfl
+
+/-- … and a fit after any clone-free history gives the state of a first fit -/
+theorem to_prefit_history_free (h0 : List Data) (hne : h0 ≠ []) (ops : List Op) (hc : cloneFree ops) (d : Data) :
+    (TOPre false h0).run (ops ++ [.fit d]) = (TOPre false h0).run [.fit d] := by
+  rw [run_snoc, run_single]
+  have hu := to_prefit_user_estimator_untouched h0 hne ops hc
+  have hn : h0.isEmpty = false := by cases h0 <;> simp_all
+  generalize (TOPre false h0).run ops = s at hu
+  rcases s with ⟨u, e, f⟩
+  simp only at hu; subst hu
+  simp [TOPre, toPreStep, toPreInit, hn]
+
+theorem to_prefit_fit_returns_self (h0 : List Data) (hne : h0 ≠ []) (ops : List Op) (hc : cloneFree ops) (d : Data) :
+    ((TOPre false h0).step ((TOPre false h0).run ops) (.fit d)).2 = .retSelf ∧
+    toPreCls h0 ((TOPre false h0).run (ops ++ [.fit d])) = .fresh d := by
+  have hn : h0.isEmpty = false := by cases h0 <;> simp_all
+  constructor
+  · have hu := to_prefit_user_estimator_untouched h0 hne ops hc
+    generalize (TOPre false h0).run ops = s at hu
+    rcases s with ⟨u, e, f⟩
+    simp only at hu; subst hu
+    simp [TOPre, toPreStep, hn]
+  · rw [to_prefit_history_free h0 hne ops hc d, run_single]
+    simp [TOPre, toPreStep, toPreInit, hn, toPreCls]
+
+/-- clone then fit ≡ a fresh ThresholdOptimizer(prefit=True) around an UNFITTED estimator: both fail in the same way -/
+theorem to_prefit_clone_then_fit (h0 : List Data) (ops : List Op) (d : Data) :
+    (TOPre false h0).run (ops ++ [.clone, .fit d]) = (TOPre false []).run [.fit d] ∧
+    ((TOPre false []).step (toPreInit []) (.fit d)).2 = .raised .attribute := by
+  constructor
+  · have : ops ++ [Op.clone, Op.fit d] = (ops ++ [.clone]) ++ [.fit d] := by simp
+    rw [this, run_snoc, run_snoc, run_single]
+    simp [TOPre, toPreStep, toPreInit]
+  · rfl
+
+theorem to_prefit_predict_pure (r : Bool) (h0 : List Data) (s : TOPreState) (k : Nat) :
+    ((TOPre r h0).step s (.predict k)).1 = s := rfl
+
+theorem to_prefit_pickle_roundtrip (r : Bool) (h0 : List Data) (s : TOPreState) :
+    ((TOPre r h0).step s .pickle).1 = s := rfl
+
+/-- why it matters: a prefit branch that fitted the user's object would change it with every fit -/
+theorem to_prefit_refit_touches_user_estimator :
+    ((TOPre true [D1]).run [.fit D2]).user ≠ [D1] ∧
+    toPreCls [D1] ((TOPre true [D1]).run [.fit D2]) = .other := by decide
+
+/-- from the source: the prefit branch of `ThresholdOptimizer.fit` fits nothing and aliases the user's estimator -/
+theorem src_to_prefit : Generated.LifecycleSrc.toPrefitRefits = false ∧ Generated.LifecycleSrc.toPrefitAliases = true := by
+  decide +kernel
+
+theorem src_to_prefit_history_free (h0 : List Data) (hne : h0 ≠ []) (ops : List Op) (hc : cloneFree ops) (d : Data) :
+    (LifecycleSrc.TOPreSrc h0).run (ops ++ [.fit d]) = (LifecycleSrc.TOPreSrc h0).run [.fit d] ∧
+    ((LifecycleSrc.TOPreSrc h0).run ops).user = h0 := by
+  have h : LifecycleSrc.TOPreSrc h0 = TOPre false h0 := by
+    unfold LifecycleSrc.TOPreSrc; rw [src_to_prefit.1]
+  rw [h]
+  exact ⟨to_prefit_history_free h0 hne ops hc d, to_prefit_user_estimator_untouched h0 hne ops hc⟩
+
+example : (TOPre false [D2w]).view (toPreCls [D2w]) [.predict 0, .fit D1, .fit D2, .pickle, .predict 5, .clone, .fit D1, .predict 1] =
+    [(.raised .notFitted, .unfitted), (.retSelf, .fresh D1), (.retSelf, .fresh D2), (.ok, .fresh D2), (.ok, .fresh D2),
+     (.ok, .unfitted), (.raised .attribute, .broken .attribute), (.raised .attribute, .broken .attribute)] := by decide
+
+end Prefit
+
 /-! ## the specification itself carries the clauses of the property -/
 
 /-- fitting on `d` after any history gives the state of a fresh estimator fitted on `d` -/
